@@ -1136,6 +1136,111 @@ static void run_evchurn(void)
     vx_state((uint64_t)churn_k * 4 + (uint64_t)churn_touch);
 }
 
+/* ---- evstop: the action of an event ends (or ends and starts again) a process that waits for that very event; a second
+ * event of the same instant, still ahead of every wake-up, looks at what is pending for the victim */
+static int es_k, es_victim, es_what, es_pending_seen;
+static int64_t es_holdsig[NP];
+static double es_holdret[NP], es_holdfrom[NP];
+static int es_runs[NP];
+
+static void *es_body(struct cmb_process *me, void *ctx)
+{
+    const int id = (int)(intptr_t)ctx;
+    (void)me;
+    es_runs[id]++;
+    start_next();
+    if (cmb_event_is_scheduled(the_event)) {
+        retsig[id] = cmb_process_wait_event(the_event);
+        rettime[id] = cmb_time();
+    }
+    es_holdfrom[id] = cmb_time();
+    es_holdsig[id] = cmb_process_hold(10.0);
+    es_holdret[id] = cmb_time();
+    return NULL;
+}
+
+static void es_action(void *s, void *o)
+{
+    (void)s;
+    (void)o;
+    if (es_what >= 1) {
+        cmb_process_stop(&procs[es_victim], NULL);
+    }
+    if (es_what == 2) {
+        cmb_process_start(&procs[es_victim]);
+    }
+}
+
+static void es_look(void *s, void *o)
+{
+    (void)s;
+    (void)o;
+    es_pending_seen = (int)cmb_event_pattern_count(CMB_ANY_ACTION, &procs[es_victim], CMB_ANY_OBJECT);
+}
+
+static void run_evstop(void)
+{
+    es_k = 1 + vx_choose_free(4, "waiters");
+    es_victim = vx_choose_free(es_k, "victim");
+    es_what = vx_choose_free(3, "what"); /* 0 nothing, 1 stop, 2 stop and start again */
+    nprocs = es_k;
+    chain_next = 0;
+    es_pending_seen = -1;
+    /* the awaited event runs first in its instant, the look second, every wake-up (priorities 0-2) after them */
+    the_event = cmb_event_schedule(es_action, NULL, NULL, 5.0, 200);
+    cmb_event_schedule(es_look, NULL, NULL, 5.0, 100);
+    for (int i = 0; i < es_k; i++) {
+        retsig[i] = 777;
+        es_holdsig[i] = 777;
+        es_holdret[i] = es_holdfrom[i] = -1.0;
+        es_runs[i] = 0;
+        cmb_process_initialize(&procs[i], "w", es_body, (void *)(intptr_t)i, i % 3);
+    }
+    start_next();
+    uint64_t n = 0;
+    while (n < 1000 && cmb_event_execute_next()) {
+        n++;
+    }
+    vx_transitions(n);
+    for (int i = 0; i < es_k; i++) {
+        const bool victim = (i == es_victim && es_what >= 1);
+        if (!victim) {
+            if (retsig[i] != CMB_PROCESS_SUCCESS || rettime[i] != 5.0 || es_holdsig[i] != CMB_PROCESS_SUCCESS
+                || es_holdret[i] != 15.0 || es_runs[i] != 1) {
+                FAIL("bystander", "k=%d victim=%d what=%d: waiter %d: wait returned %" PRIi64 " at t=%g, its hold %" PRIi64
+                     " at t=%g, body entered %d time(s)", es_k, es_victim, es_what, i, retsig[i], rettime[i], es_holdsig[i],
+                     es_holdret[i], es_runs[i]);
+                break;
+            }
+            continue;
+        }
+        if (retsig[i] != 777) {
+            FAIL("ended-process-continued", "k=%d what=%d: the waiter stopped by the event's action came back from its wait "
+                 "with %" PRIi64 " at t=%g", es_k, es_what, retsig[i], rettime[i]);
+            break;
+        }
+        if (es_pending_seen != (es_what == 2 ? 1 : 0)) {
+            FAIL("events-survive-end", "k=%d what=%d: right after the action that stopped it, %d event(s) are pending for the "
+                 "process (%d expected: %s)", es_k, es_what, es_pending_seen, es_what == 2 ? 1 : 0,
+                 es_what == 2 ? "its new start" : "none");
+            break;
+        }
+        if (es_what == 1 && (es_runs[i] != 1 || es_holdret[i] >= 0.0)) {
+            FAIL("ended-process-continued", "k=%d: the stopped waiter ran on (body entered %d time(s), hold returned at t=%g)",
+                 es_k, es_runs[i], es_holdret[i]);
+            break;
+        }
+        if (es_what == 2 && (es_runs[i] != 2 || es_holdfrom[i] != 5.0 || es_holdsig[i] != CMB_PROCESS_SUCCESS
+                             || es_holdret[i] != 15.0)) {
+            FAIL("new-life-disturbed", "k=%d: started again by the action, the process entered its body %d time(s); its hold(10) "
+                 "from t=%g returned %" PRIi64 " at t=%g", es_k, es_runs[i], es_holdfrom[i], es_holdsig[i], es_holdret[i]);
+            break;
+        }
+    }
+    vx_outcome((uint64_t)es_k * 100 + (uint64_t)es_victim * 10 + (uint64_t)es_what);
+    vx_state((uint64_t)es_k * 100 + (uint64_t)es_victim * 10 + (uint64_t)es_what);
+}
+
 static void run_one(void)
 {
     memset(procs, 0, sizeof procs);
@@ -1154,6 +1259,7 @@ static void run_one(void)
     else if (!strcmp(mode, "pqorder")) run_pqorder();
     else if (!strcmp(mode, "manywaiters")) run_manywaiters();
     else if (!strcmp(mode, "evchurn")) run_evchurn();
+    else if (!strcmp(mode, "evstop")) run_evstop();
     else run_procwait();
     for (int i = 0; i < NP; i++) {
         if (procs[i].core.stack != NULL) {
